@@ -10,6 +10,7 @@ from engine.types import bind_args
 from engine.selftest import V
 
 IG = 'bespokeasm.assembler.bytecode.generator.instruction.InstructionBytecodeGenerator'
+MG = 'bespokeasm.assembler.bytecode.generator.macro.MacroBytecodeGenerator'
 OP = 'bespokeasm.assembler.model.operand_parser'
 OS_ = 'bespokeasm.assembler.model.operand_set.OperandSet'
 OT = 'bespokeasm.assembler.model.operand.OperandType'
@@ -123,6 +124,35 @@ def c13_2(ctx):
     b = bind_args(sp[0], tgt)
     ctx.check(unparse(b.get('target_operand_count')) == 'self.operand_count' and unparse(b.get('operands')) == f.call_params[1].arg, 'priority:specific-args', f.site(sp[0]),
               'the specific matcher receives the operands and the configured operand count', unparse(sp[0])[:160])
+
+
+def c13_every_combination(ctx):
+    ctx.rule('C13.14', 'every listed operand combination is tried before the specific matcher gives up', 1)
+    tgt = ctx.repo.func(OP + '.SpecificOperandsModel.find_operands_from_specific_operands')
+    loops = [l for l in walk_no_nested(tgt.node) if isinstance(l, ast.For) and unparse(l.iter) == 'self._specific_operands']
+    if len(loops) != 1:
+        raise AnalysisError('find_operands_from_specific_operands: loop over the listed combinations not found')
+    lp = loops[0]
+    res = resolver(ctx, tgt, inline=False)
+    count_differs = lit_cmp(ctx, tgt, f'{unparse(lp.target)}.operand_count != {tgt.call_params[2].arg}', res)
+    n = 0
+    for r in [x for x in ast.walk(lp) if isinstance(x, ast.Return) and (x.value is None or (isinstance(x.value, ast.Constant) and x.value.value is None))]:
+        n += 1
+        cl = facts_at(ctx, tgt, r, res)
+        ok = clause_implies(cl, count_differs)
+        ctx.check(ok, 'specific:every-combination-tried', tgt.site(r),
+                  'a listed combination that does not fit the statement is skipped and the next one is tried (only a combination of the wrong length, which the '
+                  'loader refuses, ends the search)',
+                  f'`return None` inside the loop under {describe_facts(cl)}: a later combination that accepts the operands is never tried, so the result depends on '
+                  f'the order of the list beyond "first match wins"')
+    for b_ in [x for x in ast.walk(lp) if isinstance(x, ast.Break)]:
+        # a `break` of the combination loop itself (not of the inner operand loop) gives up as well
+        inner = [l for l in ast.walk(lp) if isinstance(l, (ast.For, ast.While)) and l is not lp and any(y is b_ for y in ast.walk(l))]
+        if not inner:
+            n += 1
+            ctx.refute('specific:every-combination-tried', tgt.site(b_), 'a listed combination that does not fit is skipped and the next one is tried',
+                       'the loop over the listed combinations is left with `break`')
+    ctx.ok('specific:scanned', tgt.site(lp), 'exits of the combination loop were examined', f'{n} early exit(s) without a match')
 
 
 def c13_3(ctx):
@@ -399,6 +429,30 @@ def c13_7(ctx):
     nm = [r for r in returns(iv) if isinstance(r.value, ast.Constant) and r.value.value is None]
     ok = any(any(c == frozenset({('truthy', 'operand_list', True)}) for c in facts_at(ctx, iv, r, r2)) for r in nm)
     ctx.check(ok, 'count:operandless-variant', iv.site(), 'operands given to a variant without operands mean no match', '')
+    # what is counted: one operand per comma-separated piece, empty pieces included (`ld a,,b` has three, `ld a,` has two)
+    import copy
+    for gen in (iv, ctx.repo.func(MG + '.generate_variant_bytecode_parts')):
+        defs = [n for n in walk_no_nested(gen.node) if isinstance(n, ast.Assign) and unparse(n.targets[0]) == 'operand_list'
+                and not (isinstance(n.value, ast.List) and not n.value.elts)]
+        for n in defs:
+            v = n.value
+            # a helper of one expression is read through
+            for _ in range(3):
+                if isinstance(v, ast.Call) and isinstance(v.func, ast.Name):
+                    callee = ctx.repo.resolve_name(gen.module, v.func.id, None)
+                    body = [b for b in callee.node.body if not (isinstance(b, ast.Expr) and isinstance(b.value, ast.Constant))] if hasattr(callee, 'node') else []
+                    if len(body) == 1 and isinstance(body[0], ast.Return) and body[0].value is not None and len(v.args) == len(callee.call_params) and not v.keywords:
+                        from engine.normalize import _Subst
+                        v = _Subst({p_.arg: a_ for p_, a_ in zip(callee.call_params, v.args)}).visit(copy.deepcopy(body[0].value))
+                        continue
+                break
+            filt = [c_ for c_ in ast.walk(v) if isinstance(c_, (ast.ListComp, ast.GeneratorExp)) and any(g_.ifs for g_ in c_.generators)] + \
+                   [c_ for c_ in ast.walk(v) if isinstance(c_, ast.Call) and unparse(c_.func) == 'filter']
+            splits = [c_ for c_ in ast.walk(v) if isinstance(c_, ast.Call) and isinstance(c_.func, ast.Attribute) and c_.func.attr == 'split']
+            ok = len(splits) == 1 and [unparse(a) for a in splits[0].args] == ["','"] and not splits[0].keywords and not filt
+            ctx.check(ok, f'count:every-piece-is-an-operand:{"macro" if gen is not iv else "instruction"}', gen.site(n),
+                      'the operand list is the operand text split at every comma, nothing dropped (an empty piece is an operand that matches nothing)',
+                      f'operand_list = {unparse(v)[:120]}')
 
 
 def _anchored(e) -> bool | None:
@@ -553,7 +607,7 @@ def c13_vetoes(ctx):
     from rules.shared import no_pre_pattern_veto
     no_pre_pattern_veto(ctx, 'bespokeasm.assembler.model.operand')
 
-RULES = [c13_1, c13_dispatch, c13_2, c13_3, c13_registers, c13_ids, c13_4, c13_5, c13_6, c13_7, c13_8, c13_macros, c13_state, c13_vetoes, c13_no_abort]
+RULES = [c13_1, c13_dispatch, c13_2, c13_every_combination, c13_3, c13_registers, c13_ids, c13_4, c13_5, c13_6, c13_7, c13_8, c13_macros, c13_state, c13_vetoes, c13_no_abort]
 
 _GI = 'assembler/bytecode/generator/instruction.py'
 _OPF = 'assembler/model/operand_parser.py'
